@@ -19,18 +19,18 @@ func Materialise(t *Tree, root string) error {
 	for i := range t.Nodes {
 		n := &t.Nodes[i]
 		p := filepath.Join(root, filepath.FromSlash(n.Path))
+		if n.LinkTo != "" {
+			if err := unix.Link(filepath.Join(root, filepath.FromSlash(n.LinkTo)), p); err != nil {
+				return fmt.Errorf("link %s: %w", n.Path, err)
+			}
+			continue
+		}
 		switch n.Kind {
 		case KDir:
 			if err := unix.Mkdir(p, 0o700); err != nil {
 				return fmt.Errorf("mkdir %s: %w", n.Path, err)
 			}
 		case KFile:
-			if n.LinkTo != "" {
-				if err := unix.Link(filepath.Join(root, filepath.FromSlash(n.LinkTo)), p); err != nil {
-					return fmt.Errorf("link %s: %w", n.Path, err)
-				}
-				continue
-			}
 			if err := os.WriteFile(p, Content(n.Seed, n.Size), 0o600); err != nil {
 				return fmt.Errorf("write %s: %w", n.Path, err)
 			}
